@@ -61,22 +61,23 @@ def run(ctx):
             if len(oks) != 1:
                 continue
             val = oks[0].payload
-            leaves = S.leaf_paths(ty)
-            rep.ob('R13.1', '%s: leaf fields enumerated from the type layout' % name, len(leaves) >= 1, ty, w, sn)
-            for names, lty in leaves:
+            chains = S.leaf_chains(ty)
+            rep.ob('R13.1', '%s: leaf fields enumerated from the type layout' % name, len(chains) >= 1, ty, w, sn)
+            for names, chain in chains:
+                lty = chain[-1]
                 got = lookup(val, names)
                 want = lookup(X, names)
                 fname = '.'.join(names)
-                if names[-1] == 'mode' and 'InnerEnvelopeMode' in lty:
+                if 'InnerEnvelopeMode' in lty:
                     good = got is not None and got[0] == 'adt' and got[2] == 'Internal'
                     rep.ob('R13.1', '%s.%s: the (unserialised) envelope mode is the constant Internal' % (name, fname), good, show(got), where_of(d), sn)
                     continue
-                if len(names) >= 2 and names[-2] == 'pk' and names[-1] == '0' and any('KeyPair' in (S.types.get(t, {}) or {}).get('dpath', '') for t in [None]):
-                    pass
-                # KeyPair.pk is recomputed from the decoded secret key
-                kp_prefix = names[:-2]
-                if names[-2:] == ('pk', '0') or names[-2:] == ['pk', '0']:
-                    sk = lookup(val, list(kp_prefix) + ['sk', '0'])
+                # the public key inside a KeyPair is recomputed from the decoded secret key (roles by type, not by field name)
+                if len(chain) >= 3 and '::KeyPair<' in chain[-3] and '::PublicKey<' in chain[-2]:
+                    kp_prefix = names[:-2]
+                    kpt = S.types.get(chain[-3])
+                    skf = [f['name'] for f in kpt['variants'][0]['fields'] if '::PublicKey<' not in f['ty']] if kpt else []
+                    sk = lookup(val, list(kp_prefix) + [skf[0], '0']) if skf else None
                     if sk is not None:
                         good = got == App('KeGroup::public_key', sk)
                         n_leaves += int(good)
